@@ -477,3 +477,29 @@ def extra(ctx):
                                         "members": before, "how": how})
             break
     ctx.cov["agentset_copies_checked"] = i + 1
+
+    # a larger grid whose neighbourhoods were all used (they are cached on the cells): copying must not depend on
+    # the size of the space (defect S23: one level of recursion per cell)
+    from mesa.discrete_space import CellAgent, OrthogonalMooreGrid, OrthogonalVonNeumannGrid
+
+    for klass, dims in ((OrthogonalMooreGrid, (40, 40)), (OrthogonalVonNeumannGrid, (12, 12, 12))):
+        m = Model(seed=1)
+        g = klass(dims, torus=True, random=m.random)
+        ag = CellAgent(m)
+        ag.cell = g[tuple(3 for _ in dims)]
+        for c in g.all_cells:
+            c.neighborhood  # noqa: B018
+        for how in ("deepcopy", "pickle"):
+            try:
+                g2 = copy.deepcopy(g) if how == "deepcopy" else pickle.loads(pickle.dumps(g))
+                ok = (len(list(g2.all_cells)) == len(list(g.all_cells)) and next(iter(g2.agents)).cell is g2[tuple(3 for _ in dims)]
+                      and sorted(c.coordinate for c in g2[tuple(0 for _ in dims)].neighborhood)
+                      == sorted(c.coordinate for c in g[tuple(0 for _ in dims)].neighborhood))
+                err = None if ok else "the copy differs from the original"
+            except RecursionError:
+                err = "RecursionError"
+            if err:
+                ctx.violation("large-grid", {"kind": "impl-counterexample", "oracle_clause": [f"copy-unusable: {how} of a {dims} {klass.__name__} whose cells' neighborhoods were used: {err}"],
+                                              "dims": dims, "how": how})
+                return
+    ctx.cov["large_grid_copies_checked"] = 4
